@@ -464,8 +464,15 @@ def stages_variants(prop, modes, tier):
     return out
 
 
+def opt_cfg(family, n):
+    return gen_cfg(family, n, emit="none", invariants=("Transparent",), extra={"OptDevs": ("<-", "NoDevs")})
+
+
 def stages_C02(tier):
-    out = stages_variants("C02", "struct:opt,struct:noopt,none:opt,none:noopt", tier)
+    # the optimizer's passes as designed (Optimizer.tla) are transparent on every expression x assignment
+    out = [Stage("design-%s-n%d" % (fam, n), "MC_Opt", opt_cfg(fam, n), kind="mc", workers=vf.NCPU, timeout=2400)
+           for fam, n in ([("coll", 4), ("order", 5), ("arith", 3)] if tier == "quick" else [("coll", 4), ("order", 5), ("arith", 4), ("mixed", 4), ("inlit", 6)])]
+    out += stages_variants("C02", "struct:opt,struct:noopt,none:opt,none:noopt", tier)
     # the ConstExpr clause: pure functions marked as constant expressions, optimizer on and off
     n = 5 if tier == "quick" else 6
     out.append(Stage("cexpr-n%d" % n, "MC_Expr", gen_cfg("cexpr", n), "C02",
@@ -477,7 +484,10 @@ def stages_C15(tier):
     return stages_variants("C15", "struct:noopt,ptr:noopt,map:noopt,none:noopt,eval,struct:opt,map:opt", tier)
 
 
-C02_RULE = ("the expressions and environment assignments of the C01 corpora (TLC-enumerated per family up to the node "
+C02_RULE = ("(design) Optimizer.tla states the passes inArray, fold, inRange, constRange as tree rewrites with the guards "
+            "under which they are sound; TLC checks Transparent (optimizing does not change value, failure or call log; "
+            "the optimizer fails only on a constant division by zero) on every expression of three (five) families x "
+            "every assignment; (code) the expressions and environment assignments of the C01 corpora (TLC-enumerated per family up to the node "
             "budget + random deep derivations); each compiled with Optimize(true) and Optimize(false), with and without "
             "a declared environment type; per assignment both programs fail or both return ObsEq values (numbers equal in "
             "kind and value, sequences element by element); an expression only the optimizer rejects must contain a "
@@ -691,9 +701,9 @@ def lex_cfg(family, maxlen):
     return vf.cfg_text({"LexFamily": family, "LexMaxLen": maxlen, "LexEmit": "cases"}, invariants=LEX_INV)
 
 
-C12_FAMILIES = {"quick": [("strlit", 2), ("numlit", 4), ("layout", 1), ("all-num", 3), ("all-str", 3), ("all-op", 3),
+C12_FAMILIES = {"quick": [("strlit", 2), ("numlit", 4), ("bigvals", 1), ("layout", 1), ("all-num", 3), ("all-str", 3), ("all-op", 3),
                           ("all-word", 4), ("all-misc", 3)],
-                "thorough": [("strlit", 3), ("numlit", 5), ("layout", 1), ("all-num", 4), ("all-str", 4), ("all-op", 4),
+                "thorough": [("strlit", 3), ("numlit", 5), ("bigvals", 1), ("layout", 1), ("all-num", 4), ("all-str", 4), ("all-op", 4),
                              ("all-word", 5), ("all-misc", 4)]}
 
 
@@ -710,7 +720,10 @@ C12_RULE = ("TLC runs the lexer machine Lexer.tla (one step per state function o
             "style) for every value up to the length bound over 16 characters (quotes, backslash, LF, CR, TAB, BEL, NUL, "
             "DEL, 2-, 3- and 4-byte runes) x both quotes x 8 escape styles; numlit = every decimal spelling with "
             "separators, every 0x/0X hexadecimal spelling over {1,e,E,f,A,b,0,_}, every float form d.d .d d. with "
-            "exponents; layout = every ordered pair of 45 tokens of all kinds x 8 separators (line breaks, tabs, CR LF, "
+            "exponents; bigvals = eleven spelling schemes (decimal with and without separators, 0x/0X hexadecimal in lower, "
+            "upper and mixed case with separators, floats in e/E/f/g formats) instantiated by the harness with extrema "
+            "(2^31, 2^53+1, 2^63-1, hexadecimal values made of the digits e, b, f; MaxFloat64, the smallest denormal) and "
+            "400 seeded random values each; layout = every ordered pair of 45 tokens of all kinds x 8 separators (line breaks, tabs, CR LF, "
             "none where safe) x 2 prefixes; all-* = every text up to the bound over five class alphabets. The real "
             "lexer.Lex / parser.Parse must return the specified token kinds, values (byte-exact), positions and literal "
             "values (integers by math/big from the canonical digits, floats as the float64 nearest to mantissa x "
